@@ -32,6 +32,11 @@ InitEv == /\ E.ev = "init"
              /\ IsCanonical(r)
              /\ IF E.kind = "mont" THEN MulF(r, R64) = RedF(E.v)                  \* r is the residue whose image is v
                 ELSE r = RedF(E.v)
+          \* decoding E.v from bytes (TryFrom<&[u8]>, Randomizable::from_random_bytes, Deserializable): accepted exactly when the
+          \* integer is below the modulus, and then it is that residue - never a silent reduction of a larger value
+          /\ \A f \in {"try_from", "random", "read"} :
+                /\ E.dec[f].ok = LessN(NormN(E.v), Modulus)
+                /\ (E.dec[f].ok => NormN(E.dec[f].r) = NormN(E.v))
 
 Expected(op, a, b, e) ==
     CASE op \in {"add", "add_assign"} -> AddF(a, b)
